@@ -109,7 +109,7 @@ package cache
 // the part of doTake outside the barrier: the error of the (possibly shared) load is returned as it is, the caller that ran
 // the load itself is done, a caller that shared somebody else's load decodes the shared bytes
 //@ func (c cacheNode) doTake
-//@   property C06
+//@   property C06 C07
 //@   ghost at after DoEx#0: de = ret2
 //@   ghost at after DoEx#0: fr = ret1
 //@   ghost at entry: decoded = false
